@@ -45,6 +45,12 @@ def cases(ctx):
         r = ctx.rng("C10g3", j)
         c = gen.rand_circuit(r, n_in=r.randint(1, 5), n_gates=r.randint(2, 10), max_fanin=4, consts=0.5, out_is_input=0.2)
         yield {"op": "ternary", "c": proj(c), "src": "G3"}
+        if j % 4 == 1:
+            # a gate that drives nothing and is no output: it still has to be in the result, with its companion
+            c2 = c.copy()
+            ns = sorted(c2.nodes())
+            c2.add("dangling", r.choice(["and", "or", "xor", "not"]), fanin=r.sample(ns, 1))
+            yield {"op": "ternary", "c": proj(c2), "src": "DANGLE"}
         if j % 3 == 0:
             # nets called like the nodes ternary() adds for another net: <n>_X, <n>_x_in_fi, <p>_is_0, <p>_not_x ...
             import networkx as nx
